@@ -9,7 +9,52 @@ def _e(profile, bin_, *args, **kw):
     return d
 
 
+def _rayon(n):
+    return {"RAYON_NUM_THREADS": str(n)}
+
+
 PLAN = {
+    "C01": {
+        "level": "model_checking",
+        "engines": lambda tier: [_e("release", "seqmc", "c01", "--shards", "4")],
+        "assumptions": [
+            "content lengths come from a boundary alphabet (0,1,255,256,65535,65536, 4 MiB-1/4 MiB/4 MiB+1, 16 MiB+1); payload bytes are seeded patterns (low/high entropy)",
+            "the creator runs with 3 compression workers (process pinned to 4 CPUs); worker scheduling itself is C08's subject",
+            "Detect hints within 0.05 bit of the 6.0 entropy threshold are excluded from the model conformance check (still read back)",
+        ],
+    },
+    "C16": {
+        "level": "exploration",
+        "engines": lambda tier: [_e("release", "seqmc", "c16", "--shards", "4")],
+        "assumptions": [
+            "observer = independent byte decoder in the harness (own CRC-32C, codec crates), not jubako's reader",
+            "CompHint::Detect is unconstrained by the property and only recorded",
+            "under the deduplicating adder the hint clauses are evaluated on first occurrences only",
+        ],
+    },
+    "C03": {
+        "level": "exploration",
+        "engines": lambda tier: [_e("release", "schemamc", "c03")] + [
+            _e("release", "schemamc", "c03", "--large", str(n), env=_rayon(t))
+            for (n, t) in ([(1000, 1), (1000, 16)] if tier == "quick" else [(1000, 1), (1000, 2), (1000, 16), (5000, 1), (5000, 2), (5000, 16)])
+        ],
+        "assumptions": [
+            "keys come from a 40-string universe over {00,61,ff} (length<=3) and from the integer boundary alphabets; subsets up to the stated size are enumerated completely",
+            "large structured key sets run under RAYON_NUM_THREADS configurations (1,2,16): configurations, not enumerated rayon schedules",
+            "binary search is reached through a wrapper whose ordered() is true (PropertyCompare::ordered is hard-wired false)",
+        ],
+    },
+    "C15": {
+        "level": "exploration",
+        "engines": lambda tier: [_e("release", "schemamc", "c15")] + [
+            _e("release", "schemamc", "c15", "--large", sizes, env=_rayon(t))
+            for (sizes, t) in ([("32,300,1000", 1), ("32,300,1000", 16)] if tier == "quick" else [("32,300,1000,20000", 1), ("32,300,1000,20000", 2), ("32,300,1000,20000", 16)])
+        ],
+        "assumptions": [
+            "all reference graphs x insertion orders are enumerated up to n=4 (quick) / n=5 (thorough); larger stores use structured graphs",
+            "rayon schedules of par_sort_unstable_by / par_iter_mut are configurations (1,2,16 threads), not enumerated",
+        ],
+    },
     "C02": {
         "level": "exploration",
         "engines": lambda tier: [_e("release", "schemamc", "c02")],
